@@ -370,8 +370,19 @@ package m3
 //@ pred upd(p tally.BucketPair) { pcall(tally.BucketPair.UpperBoundDuration, p) }
 //@ pred bucketHandle(b cachedHistogramBucket, r *reporter, name string, tags map[string]string) { b.metric != nil && b.metric.reporter == r && b.metric.metric.Name == name && b.metric.metric.Value.MetricType == m3thrift.MetricType_COUNTER && tagsAre(b.metric.metric.Tags, tags) }
 
+// C12: a histogram sample is charged the measured size of the metric as it is
+// sent, i.e. with the bucket id and bucket range tags appended to its own tags.
+//@ func (*reporter).sizeWithBucketTags
+//@   property C12, C13
+//@   allocs
+//@   witness sent []m3thrift.MetricTag = tags
+//@   requires r != nil
+//@   ensures @measured_as_sent len(sent) == len(m.Tags) + 2 && (forall j int :: 0 <= j && j < len(m.Tags) ==> sent[j].Name == m.Tags[j].Name && sent[j].Value == m.Tags[j].Value) && sent[len(m.Tags)].Name == r.bucketIDTagName && sent[len(m.Tags)].Value == bucketID && sent[len(m.Tags)+1].Name == r.bucketTagName && sent[len(m.Tags)+1].Value == bucket && result == psize(m.Name, m.Timestamp, m.Value.MetricType, m.Value.Count, m.Value.Gauge, m.Value.Timer, arrof(sent), len(sent))
+//@   ensures @metric_tags_untouched forall j int :: 0 <= j && j < len(m.Tags) ==> m.Tags[j].Name == old(m.Tags[j].Name) && m.Tags[j].Value == old(m.Tags[j].Value)
+//@   ensures @quiet quiet()
+
 //@ func (*reporter).AllocateHistogram
-//@   property C13
+//@   property C13, C12
 //@   allocs
 //@   witness idfmt string = bucketIDFmt
 //@   requires allocWF(r) && notTheInternTable(r, tags) && buckets != nil && (is(buckets, tally.ValueBuckets) || is(buckets, tally.DurationBuckets))
